@@ -19,6 +19,7 @@ type vpC17Case struct {
 	ctl       bool              // the directive is a run-time ctl action in a rule placed first
 	remove    []int             // rule ids absent from the rewritten configuration
 	repl      map[string]string // %T<n>/%A<n> overrides of the rewritten configuration
+	base      map[string]string // overrides that apply to the edited configuration too
 }
 
 var vpC17Cases = []vpC17Case{
@@ -49,6 +50,13 @@ var vpC17Cases = []vpC17Case{
 	{directive: "ctl:ruleRemoveTargetById=5;ARGS:a", ctl: true, repl: map[string]string{"%T5": "ARGS|!ARGS:a", "%T6": "ARGS|!ARGS:a"}},
 	{directive: "ctl:ruleRemoveTargetByTag=ta;ARGS:a", ctl: true, repl: map[string]string{"%T1": "ARGS|!ARGS:a", "%T3": "ARGS|!ARGS:a"}},
 	{directive: "ctl:ruleRemoveTargetByMsg=m2;ARGS:b", ctl: true, repl: map[string]string{"%T2": "ARGS|!ARGS:b"}},
+	// regex keys, also on a collection whose keys are matched without regard to case, written with
+	// an upper-case letter
+	{directive: "ctl:ruleRemoveTargetById=1;ARGS:/^a/", ctl: true, repl: map[string]string{"%T1": "ARGS|!ARGS:/^a/"}},
+	{directive: "SecRuleUpdateTargetById 1 \"!ARGS:/^a/\"", repl: map[string]string{"%T1": "ARGS|!ARGS:/^a/"}},
+	{directive: "ctl:ruleRemoveTargetById=2;REQUEST_HEADERS:/^X-K/", ctl: true, base: map[string]string{"%T2": "REQUEST_HEADERS"}, repl: map[string]string{"%T2": "REQUEST_HEADERS|!REQUEST_HEADERS:/^X-K/"}},
+	{directive: "SecRuleUpdateTargetById 2 \"!REQUEST_HEADERS:/^X-K/\"", base: map[string]string{"%T2": "REQUEST_HEADERS"}, repl: map[string]string{"%T2": "REQUEST_HEADERS|!REQUEST_HEADERS:/^X-K/"}},
+	{directive: "ctl:ruleRemoveTargetByTag=tb;REQUEST_HEADERS:X-K", ctl: true, base: map[string]string{"%T2": "REQUEST_HEADERS"}, repl: map[string]string{"%T2": "REQUEST_HEADERS|!REQUEST_HEADERS:X-K"}},
 }
 
 func vpReplaceAll(s, old, new string) string {
@@ -136,6 +144,8 @@ func vpC17Run(waf *corazawaf.WAF, bits [8]bool) vpC17Out {
 	tx := waf.NewTransaction()
 	tx.AddGetRequestArgument("a", "1")
 	tx.AddGetRequestArgument("b", "2")
+	tx.AddRequestHeader("X-K", "hv")
+	tx.AddRequestHeader("Y", "hy")
 	tx.ProcessRequestHeaders()
 	var o vpC17Out
 	o.seen = vpSeen
@@ -160,9 +170,9 @@ func VpC17Rewrite() {
 	c := vpC17Cases[ci]
 	var edited string
 	if c.ctl {
-		edited = "SecAction \"id:20,phase:1,pass," + c.directive + "\"\n" + vpC17Conf(nil, nil)
+		edited = "SecAction \"id:20,phase:1,pass," + c.directive + "\"\n" + vpC17Conf(c.base, nil)
 	} else {
-		edited = vpC17Conf(nil, nil) + c.directive + "\n"
+		edited = vpC17Conf(c.base, nil) + c.directive + "\n"
 	}
 	key := vpD(ci/10) + vpD(ci%10)
 	wafE := vpBuild("c17e:"+key, edited)
